@@ -11,6 +11,7 @@ RULE = ("Hypothesis draws a series (length 3-2000; shapes: explicit element list
         "offsets) and lambda log-uniform in [1e-3,1e7] or an integer (Python / numpy) in [1,1e7]; oracles: cycle+trend=series, HP first-order condition with a "
         "hand-written second-difference stencil, definitions of the three derived filters, finiteness of the 18 moments. "
         "Non-trivial = the series has non-zero second differences (otherwise trend == series for any lambda).")
+RULE = RULE.replace('finiteness of the 18 moments.', 'finiteness of the 18 moments (also right after a filter call the library rejects); finally 1000 filter calls from four threads at once, each compared with its single-threaded result.')
 ASSUMPTIONS = ["HP optimality residual tolerance 1e-12*(1+16*lambda)*max|y| (backward error of a sparse LU solve)",
                "log filters are exercised on strictly positive series only"]
 SHARDS = {"quick": 4, "thorough": 16}
